@@ -256,7 +256,11 @@ fn check_case(rep: &mut Report, kind: &str, input: &[u8], rng: &mut Rng, rt: &to
     // them, the allocation failure would abort this process and lose the attribution.
     let declared_small = match hdr {
         None => true,
-        Some(h) => h.query_length <= MIB16 && h.body_length <= MIB16,
+        // (under Miri a multi-MiB zero-fill takes minutes: keep declared sizes small there)
+        Some(h) => {
+            let cap = if cfg!(miri) { 64 << 10 } else { MIB16 };
+            h.query_length <= cap && h.body_length <= cap
+        }
     };
     if !declared_small {
         return;
